@@ -52,6 +52,7 @@ CONSTANTS NS,        \* key spaces (prefix databases) 1..NS
           NR,        \* store iterator handles 1..NR (each held by the thread that opened it)
           NT,        \* threads 1..NT
           Writers,   \* threads that open batches
+          ItThreads, \* threads that open store iterators
           RdThreads, \* threads that keep single-key reads in flight (ReadBegin .. ReadEnd); {} switches them off
           MapInit,   \* initial map size, in space units
           UsedInit,  \* space already used at the start (lets the gate configurations start on a nearly full map)
@@ -77,7 +78,7 @@ ASSUME Vals \subseteq (Nat \ {0})
 \* The resize policy (RESIZE_PERCENT = 0.9, checked only when a batch is opened) keeps at
 \* least 10 % of the map free at Begin. The property is claimed for batches below that.
 ASSUME BatchMax * 10 <= MapInit /\ MapInit >= Chunk /\ UsedInit \in 0..MapInit
-ASSUME Writers \subseteq Threads /\ RdThreads \subseteq Threads
+ASSUME Writers \subseteq Threads /\ ItThreads \subseteq Threads /\ RdThreads \subseteq Threads
 
 VARIABLES committed,  \* [Cells -> Vals \cup {NoVal}]   durable, what every outside reader sees
           stack,      \* Seq of overlays: the open batch and its nested children
@@ -292,7 +293,7 @@ ReadEnd(t) == /\ rd[t] # NoRd /\ ~Parked(t)
               /\ UNCHANGED <<committed, stack, shadow, bown, snap, space, resizing, wait, torn>>
 
 OutIterOpen(t, r, sp) ==
-         /\ Idle(t) /\ snap[r] = NoSnap /\ CanEnter(t)
+         /\ t \in ItThreads /\ Idle(t) /\ snap[r] = NoSnap /\ CanEnter(t)
          /\ snap' = [snap EXCEPT ![r] = [open |-> TRUE, m |-> committed, sp |-> sp, pos |-> 0, th |-> t]]
          /\ Entered(t)
          /\ act' = [k |-> "OutIterOpen", t |-> t, r |-> r, sp |-> sp]
